@@ -838,3 +838,66 @@ def rule_bit_io_count_checked(ctx):
                              (x[1], "dropped" if verdict == "dropped" else "compared with FAIL only"))
     ctx.floor("BITCOUNT", 4, n, "(bit I/O calls in the coders)")
     return n
+
+
+def _dead_fail_tests(nodes, int_bits):
+    """comparisons `narrowed == K` where K cannot be represented in the narrowed operand's type"""
+    out = []
+    for line, x in nodes:
+        if x[0] != "bin" or x[1] not in ("==", "!="):
+            continue
+        for a, o in ((x[2], x[3]), (x[3], x[2])):
+            k = o
+            while isinstance(k, list) and k and k[0] in ("cast", "seen"):
+                k = k[2] if k[0] == "cast" else k[1]
+            if kind(k) != "int":
+                continue
+            kv = k[1]
+            if kv == -1:
+                kv = 0xFFFFFFFF
+            if kv < 256:
+                continue
+            e = a
+            while isinstance(e, list) and e and e[0] == "seen":
+                e = e[1]
+            if kind(e) == "asg":
+                e = e[3]
+                while isinstance(e, list) and e and e[0] == "seen":
+                    e = e[1]
+            if kind(e) != "cast":
+                continue
+            b = int_bits(e[1])
+            bits = b[0] if isinstance(b, tuple) else b
+            signed = b[1] if isinstance(b, tuple) and len(b) > 1 else not str(e[1]).startswith(("u", "unsigned"))
+            if not bits or bits >= 32 or signed:
+                continue
+            inner = strip(e[2])
+            if kind(inner) != "call":
+                continue
+            if kv > (1 << bits) - 1:
+                out.append((line, render(x)[:80], e[1], bits))
+    return out
+
+
+def rule_failure_test_alive(ctx):
+    """DEADFAIL (C16): a read primitive reports a failure with a value outside the range of good results (HDgetc returns FAIL, -1, where
+    good results are 0..255).  If its result is narrowed to an unsigned type that cannot hold the failure value before it is
+    compared with it — `(uint8)HDgetc(aid) == (unsigned)FAIL` — the comparison can never be true: the failure test is dead, a
+    read error becomes the data byte 0xFF, and the caller reports success.  No comparison in the library has a call result
+    narrowed to fewer bits than its constant operand needs.  The expected count is zero; the matcher is exercised on a built-in
+    positive example on every run."""
+    prog = ctx.prog
+    ex = [(1, ["bin", "==", ["asg", "=", ["mem", ["var", "r", "l", "x *"], "last_byte", "x", "unsigned int", 1],
+                                 ["cast", "uint8", ["call", "HDgetc", None, [["var", "aid", "l", "int32"]], "int", 1, 1, []]], 1, "unsigned int"],
+               ["cast", "unsigned int", ["int", -1]], "int"])]
+    if not _dead_fail_tests(ex, prog.int_bits):
+        ctx.unrecognised("DEADFAIL", "DEADFAIL:selftest", "-", "the matcher no longer recognises its built-in positive example")
+    n = 0
+    for f in prog.lib_funcs():
+        nodes = [(s.get("l", f.line), x) for _b, _i, s, x in f.nodes(True)]
+        n += 1
+        for line, txt, ty, bits in _dead_fail_tests(nodes, prog.int_bits):
+            ctx.violated("DEADFAIL", "DEADFAIL:%s" % f.name, f.where(line), "`%s`: the call result is narrowed to %s (%d bits) before it is compared with a value that does not fit: the failure test can never fire" % (txt, ty, bits))
+    ctx.holds("DEADFAIL", "DEADFAIL:all", "-", "%d functions scanned: no call result is narrowed below the constant it is compared with" % n, nontrivial=False)
+    ctx.floor("DEADFAIL", 500, n, "(functions scanned)")
+    return n
